@@ -73,8 +73,10 @@ class EncircledEnergy(SpotDiagram):
         """
         centroid = []
         for field_data in self.data:
-            centroid_x = np.mean(field_data[0][0])
-            centroid_y = np.mean(field_data[0][1])
+            # rays stopped by an aperture (intensity 0) do not count
+            lit = field_data[0][2] > 0
+            centroid_x = np.mean(field_data[0][0][lit])
+            centroid_y = np.mean(field_data[0][1][lit])
             centroid.append((centroid_x, centroid_y))
         return centroid
 
